@@ -15,7 +15,12 @@ NOTE = ("floats are read as reals; sizes (modes, cutoff, program length) are the
 CLAIMS = {
     "C01": dict(text="bounded symbolic model checking: every shared operation of the Gaussian and bosonic backends, on every ordered choice "
                      "of target modes, maps an ARBITRARY symbolic state to exactly the documented transformation (so the two agree with "
-                     "each other and with an independent phase-space calculation) for all real parameters",
+                     "each other and with an independent phase-space calculation) for all real parameters; the Fock simulator's one- and two-mode "
+                     "gate plumbing acts as the embedded operator on symbolic tensors (D=2,3, pure and mixed, every ordered mode pair) and its gate "
+                     "matrices (thewalrus recurrences run in Python mode on symbolic parameters) intertwine the ladder operators as documented; "
+                     "front-end dispatch: for every gate with a native kernel (D, S, R, BS, S2, MZ, K, CK; plain and daggered, both target "
+                     "orders) the calls that the real Gate.apply hands to a recording backend compose to the documented gate or its inverse, "
+                     "including the path on which the zero-parameter shortcut makes no call",
                 design_ref="5/C01"),
     "C05": dict(text="bounded symbolic model checking, one inductive step from an arbitrary state: after any gate/channel/preparation on "
                      "targets t every entry of the state outside t is unchanged, and preparations decouple the target, for all parameters",
@@ -28,7 +33,9 @@ CLAIMS = {
 CLAIMS["C02"] = dict(text="bounded symbolic model checking: every gate decomposition in ops.py (X, Z, P, CX, CZ, S2, MZ, Fourier and the native "
                     "D/S/R/BS), with free parameters bound to symbolic reals and evaluated by the real par_evaluate/lambdify path, compiled by "
                     "the real Compiler.decompose and executed on the real Gaussian backend from an ARBITRARY symbolic state, equals the documented "
-                    "transformation for all parameter values, both dagger flags and several target orders", design_ref="5/C02")
+                    "transformation for all parameter values, both dagger flags and several target orders; ops.Interferometer with the rectangular and "
+                    "triangular meshes on every 3x3 phased permutation (symbolic phases): the commands returned by the real decomposition, each read "
+                    "with its documented matrix, multiply to U", design_ref="5/C02")
 CLAIMS["C03"] = dict(text="bounded symbolic model checking: (a) the merge rule of every one-mode-mergeable and two-mode gate/channel/preparation "
                     "family, run on symbolic parameters with all dagger combinations (its own equality tests fork), gives an operation whose action "
                     "on an ARBITRARY symbolic state equals the composition, or None only for a true identity; (b) Program.optimize on every command "
